@@ -117,6 +117,8 @@ pub struct Obs {
     pub children: u64,
     pub clock_reads: u64,
     pub clock_went_backwards: bool,
+    /// sum over children of (max - min) scripted clock value seen, in ns
+    pub clock_span_ns: u128,
 }
 
 fn strip_timestamps(log: &[u8]) -> String {
@@ -149,17 +151,22 @@ pub fn observe(source: &str, t: &Tuple) -> Obs {
     let mut children = 0u64;
     let mut clock_reads = 0u64;
     let mut backwards = false;
+    let mut span: u128 = 0;
     let mut note_trace = |trace: &str| {
         let mut last: Option<i64> = None;
+        let (mut lo, mut hi) = (i64::MAX, i64::MIN);
         for l in trace.lines() {
             if let Some(rest) = l.strip_prefix("C ") {
                 clock_reads += 1;
                 if let Some(v) = rest.split("-> ").nth(1).and_then(|x| x.trim().parse::<i64>().ok()) {
                     if let Some(p) = last { if v < p { backwards = true; } }
                     last = Some(v);
+                    lo = lo.min(v);
+                    hi = hi.max(v);
                 }
             }
         }
+        if hi >= lo { span += (hi as i128 - lo as i128) as u128; }
     };
     // parse
     let parse = {
@@ -212,7 +219,7 @@ pub fn observe(source: &str, t: &Tuple) -> Obs {
         None
     };
     let _ = std::fs::remove_dir_all(&root);
-    Obs { parse, compile, run, exec, children, clock_reads, clock_went_backwards: backwards }
+    Obs { parse, compile, run, exec, children, clock_reads, clock_went_backwards: backwards, clock_span_ns: span }
 }
 
 /// First observable that differs between two observations of the same source.
@@ -262,19 +269,61 @@ pub struct Case {
     pub spec: ProgSpec,
     pub a: Tuple,
     pub b: Tuple,
+    /// in-process history case: sources compiled and run, in this order, in the same thread before the program
+    pub history: Vec<String>,
 }
 
 impl Case {
     pub fn to_json(&self) -> Value {
-        json!({"engine": ENGINE, "program": self.spec.to_json(), "tuple_a": self.a.to_json(), "tuple_b": self.b.to_json()})
+        json!({"engine": ENGINE, "program": self.spec.to_json(), "tuple_a": self.a.to_json(), "tuple_b": self.b.to_json(), "history": self.history})
     }
     pub fn from_json(v: &Value) -> Option<Case> {
-        Some(Case { spec: ProgSpec::from_json(v.get("program")?)?, a: Tuple::from_json(v.get("tuple_a")?)?, b: Tuple::from_json(v.get("tuple_b")?)? })
+        Some(Case { spec: ProgSpec::from_json(v.get("program")?)?, a: Tuple::from_json(v.get("tuple_a")?)?, b: Tuple::from_json(v.get("tuple_b")?)?,
+                    history: v.get("history").and_then(|h| h.as_array()).map(|a| a.iter().filter_map(|s| s.as_str().map(|s| s.to_string())).collect()).unwrap_or_default() })
     }
+}
+
+/// The program compiled, serialized and executed in-process in a fresh thread, after `history` programs were
+/// compiled and executed in that same thread (a thread is the unit in which FML could carry state between runs).
+pub fn in_process_after(history: &[String], source: &str) -> Option<(Option<Vec<u8>>, String, &'static str)> {
+    let history: Vec<String> = history.to_vec();
+    let source = source.to_string();
+    std::thread::Builder::new().stack_size(64 << 20).spawn(move || {
+        for h in &history {
+            if let Ok(p) = vm::compile_source(h) {
+                let _ = vm::run(&p, &vm::RunCfg { step_budget: 60_000, ..Default::default() });
+            }
+        }
+        match vm::compile_source(&source) {
+            Ok(p) => {
+                let bytes = vm::serialize_to_vec(&p).ok();
+                let r = vm::run(&p, &vm::RunCfg { step_budget: 400_000, ..Default::default() });
+                (bytes, r.output, r.end.class())
+            }
+            Err(_) => (None, String::new(), "does_not_compile"),
+        }
+    }).ok()?.join().ok()
+}
+
+fn history_difference(history: &[String], source: &str) -> Option<(String, String)> {
+    let alone = in_process_after(&[], source)?;
+    let after = in_process_after(history, source)?;
+    if alone.2 == "budget" || after.2 == "budget" { return None; }
+    if alone.0 != after.0 {
+        return Some(("D6:in_process_compile_depends_on_earlier_runs".into(), format!("bytecode differs when {} other program(s) were compiled and run first in the same thread", history.len())));
+    }
+    if alone.1 != after.1 || alone.2 != after.2 {
+        return Some(("D6:in_process_run_depends_on_earlier_runs".into(), format!("alone: {} with {} bytes of output; after {} other program(s) in the same thread: {} with {} bytes",
+            alone.2, alone.1.len(), history.len(), after.2, after.1.len())));
+    }
+    None
 }
 
 pub fn replay_case(c: &Case) -> Result<Option<(String, String)>, String> {
     let source = c.spec.source().ok_or("no source")?;
+    if !c.history.is_empty() {
+        return Ok(history_difference(&c.history, &source));
+    }
     let a = observe(&source, &c.a);
     let b = observe(&source, &c.b);
     if timed_out(&a) || timed_out(&b) {
@@ -303,6 +352,12 @@ pub fn minimise(c: &Case, oracle: &str) -> Case {
     let want = class_of(oracle);
     let still = |x: &Case| matches!(replay_case(x), Ok(Some((o, _))) if class_of(&o) == want);
     let mut best = c.clone();
+    let mut h = 0;
+    while h < best.history.len() {
+        let mut x = best.clone();
+        x.history.remove(h);
+        if !x.history.is_empty() && still(&x) { best = x; } else { h += 1; }
+    }
     // isolate the entropy source: move B towards A field by field
     macro_rules! try_field {
         ($f:ident) => {
@@ -347,7 +402,7 @@ struct Out1 {
     sample: Option<Value>,
 }
 
-fn exercise(name: &str, spec: &ProgSpec, rng: &mut Rng, n_tuples: usize) -> Out1 {
+fn exercise(name: &str, spec: &ProgSpec, rng: &mut Rng, n_tuples: usize, history: &[String]) -> Out1 {
     let mut out = Out1 { evaluations: 0, children: 0, distinct: vec![], counters: vec![], violations: vec![], sample: None };
     let source = match spec.source() { Some(s) => s, None => return out };
     if work::builds(spec) && work::qualify(spec, 150_000).is_none() {
@@ -364,7 +419,15 @@ fn exercise(name: &str, spec: &ProgSpec, rng: &mut Rng, n_tuples: usize) -> Out1
     }).collect();
     out.evaluations += 3;
     if inproc.iter().any(|x| *x != inproc[0]) {
-        out.violations.push((Case { spec: spec.clone(), a: Tuple::baseline(), b: Tuple::baseline() }, "D0:in_process_compile_not_repeatable".into(), "three compilations in fresh threads gave different bytes".into()));
+        out.violations.push((Case { spec: spec.clone(), a: Tuple::baseline(), b: Tuple::baseline(), history: vec![] }, "D0:in_process_compile_not_repeatable".into(), "three compilations in fresh threads gave different bytes".into()));
+    }
+    // repeated in-process runs with a history: state carried from one run to the next inside a thread would show here
+    if !history.is_empty() {
+        out.evaluations += 1;
+        if let Some((o, d)) = history_difference(history, &source) {
+            out.violations.push((Case { spec: spec.clone(), a: Tuple::baseline(), b: Tuple::baseline(), history: history.to_vec() }, o, d));
+        }
+        out.counters.push(("in_process_history_runs", 1));
     }
     let base_t = Tuple::baseline();
     let base = observe(&source, &base_t);
@@ -372,7 +435,7 @@ fn exercise(name: &str, spec: &ProgSpec, rng: &mut Rng, n_tuples: usize) -> Out1
     out.evaluations += 1;
     if let (Some(c), Some(bytes)) = (&base.compile, &inproc[0]) {
         if c.exit.is_success() && &c.out != bytes {
-            out.violations.push((Case { spec: spec.clone(), a: base_t.clone(), b: base_t.clone() }, "D2:cli_bytecode_differs_from_in_process_compile".into(),
+            out.violations.push((Case { spec: spec.clone(), a: base_t.clone(), b: base_t.clone(), history: vec![] }, "D2:cli_bytecode_differs_from_in_process_compile".into(),
                 format!("{} vs {} bytes", c.out.len(), bytes.len())));
         }
     }
@@ -384,6 +447,7 @@ fn exercise(name: &str, spec: &ProgSpec, rng: &mut Rng, n_tuples: usize) -> Out1
     while tuples.len() < n_tuples { tuples.push(Tuple::random(rng)); }
     let mut seeds: Vec<u64> = vec![base_t.hash_seed];
     let (mut aslr_on, mut back, mut clock_reads, mut rel, mut stdin_n) = (0u64, 0u64, 0u64, 0u64, 0u64);
+    let mut span_total: u128 = 0;
     for t in tuples {
         let o = observe(&source, &t);
         out.children += o.children;
@@ -393,6 +457,7 @@ fn exercise(name: &str, spec: &ProgSpec, rng: &mut Rng, n_tuples: usize) -> Out1
         if t.aslr { aslr_on += 1; }
         if o.clock_went_backwards { back += 1; }
         clock_reads += o.clock_reads;
+        span_total += o.clock_span_ns;
         if t.profile == Profile::Release { rel += 1; }
         if t.via_stdin { stdin_n += 1; }
         if timed_out(&base) || timed_out(&o) {
@@ -400,7 +465,7 @@ fn exercise(name: &str, spec: &ProgSpec, rng: &mut Rng, n_tuples: usize) -> Out1
             continue;
         }
         if let Some((oracle, detail)) = difference(&base, &o) {
-            out.violations.push((Case { spec: spec.clone(), a: base_t.clone(), b: t.clone() }, oracle, detail));
+            out.violations.push((Case { spec: spec.clone(), a: base_t.clone(), b: t.clone(), history: vec![] }, oracle, detail));
         }
         if out.sample.is_none() && rng.below(30) == 0 {
             out.sample = Some(json!({"program": name, "program_brief": spec.brief(), "tuple": t.to_json(), "run_exit": o.run.exit.show(),
@@ -411,6 +476,7 @@ fn exercise(name: &str, spec: &ProgSpec, rng: &mut Rng, n_tuples: usize) -> Out1
     out.counters.push(("tuples_with_aslr_on", aslr_on));
     out.counters.push(("tuples_where_clock_went_backwards", back));
     out.counters.push(("simulated_clock_reads", clock_reads));
+    out.counters.push(("simulated_clock_span_seconds_summed_over_children", (span_total / 1_000_000_000) as u64));
     out.counters.push(("tuples_release_profile", rel));
     out.counters.push(("tuples_input_via_stdin", stdin_n));
     out.counters.push(("distinct_hash_seeds_summed_over_programs", seeds.len() as u64));
@@ -478,7 +544,13 @@ pub fn run(seed: u64, tier: &str, ev: &mut Evidence) -> Vec<Violation> {
     }
     let outs: Vec<Out1> = par_map(specs.len(), |i| {
         let mut rng = Rng::for_case(seed, "C11", ENGINE, i as u64);
-        exercise(&specs[i].0, &specs[i].1, &mut rng, n_tuples)
+        // history: up to three other programs of the batch, chosen by the case seed
+        let mut history: Vec<String> = Vec::new();
+        for _ in 0..(1 + rng.usize_below(3)) {
+            let j = rng.usize_below(specs.len());
+            if j != i { if let Some(s) = specs[j].1.source() { if s.len() < 20_000 { history.push(s); } } }
+        }
+        exercise(&specs[i].0, &specs[i].1, &mut rng, n_tuples, &history)
     });
     let mut raw = Vec::new();
     let mut children = 0u64;
